@@ -6,6 +6,26 @@ From Verif Require Import Base.Str C07.Model.
 Import ListNotations.
 Open Scope string_scope.
 
+(* how a configuration value reads *)
+Definition yes_words : list string := ["true"; "yes"; "on"; "1"].
+Definition no_words : list string := ["false"; "no"; "off"; "0"; ""].
+
+Definition says_yes (v : cval) : Prop :=
+  match v with
+  | CBool b => b = true
+  | CInt z => z <> 0%Z
+  | CStr s => In (lower (strip s)) yes_words
+  | CAbsent | CNone => False
+  end.
+
+Definition says_no (v : cval) : Prop :=
+  match v with
+  | CAbsent | CNone => True
+  | CBool b => b = false
+  | CInt z => z = 0%Z
+  | CStr s => In (lower (strip s)) no_words
+  end.
+
 Section Spec.
   Variables key cert esig dsig doc : Type.
   Variable cert_of : key -> cert.
@@ -58,21 +78,38 @@ Section Spec.
 
   Definition skew (c : config) : Z := match time_diff c with Some z => z | None => 0%Z end.
 
-  Definition spec (x : input) (v : verdict) : Prop :=
+  (* the property text, for a given reading of "the entity requires signed requests" (requires) and of
+     "certificate-only validation was opted into" (certonly) *)
+  Definition spec_with (requires certonly : Prop) (x : input) (v : verdict) : Prop :=
     v = Accept ->
       let c := cfg x in
       let svc := service_of (expected x) in
       (* required signature: detached on Redirect, enveloped elsewhere *)
-      (requires_signed c ->
+      (requires ->
          (binding x = Some BINDING_HTTP_REDIRECT -> detached_valid x)
          /\ (binding x <> Some BINDING_HTTP_REDIRECT -> env x <> None))
       (* an enveloped signature that is present verifies, required or not *)
-      /\ (forall e, env x = Some e -> enveloped_valid x e \/ cert_only c)
+      /\ (forall e, env x = Some e -> enveloped_valid x e \/ certonly)
       (* addressing *)
       /\ (forall d, destination (msg x) = Some d -> d <> "" ->
             (exists d', own_endpoint c svc (binding x) d') -> own_endpoint c svc (binding x) d)
       /\ version (msg x) = "2.0"
       /\ (now x - 86400 - skew c <= issued (msg x) <= now x + 86400 + skew c)%Z.
+
+  (* ... read off the receiver object as it is configured in memory *)
+  Definition spec (x : input) (v : verdict) : Prop :=
+    spec_with (requires_signed (cfg x)) (cert_only (cfg x)) x v.
+
+  (* ... read off the configuration as the operator wrote it: an option is switched on by a value that
+     SAYS so - True, a number other than 0, or one of the words true / yes / on / 1 in any
+     capitalisation, surrounding blanks ignored (the vocabulary pysaml2 itself reads boolean SP
+     options with, client_base.py) - and the certificate-only opt-in cannot be claimed for a value that
+     says no: absent, None, False, 0, or one of the words false / no / off / 0 / "" .  A text that says
+     neither demands nothing either way. *)
+  Definition requires_src (s : source) : Prop := says_yes (s_ws s) \/ says_yes (s_ovc s).
+  Definition cert_only_src (s : source) : Prop := ~ says_no (s_ovc s).
+  Definition spec_src (s : source) (x : input) (v : verdict) : Prop :=
+    spec_with (requires_src s) (cert_only_src s) x v.
 End Spec.
 
 Arguments cert_only {cert}.
@@ -82,4 +119,6 @@ Arguments enveloped_valid {key cert esig dsig doc}.
 Arguments detached_valid {key cert esig dsig doc}.
 Arguments own_endpoint {cert}.
 Arguments skew {cert}.
+Arguments spec_with {key cert esig dsig doc}.
 Arguments spec {key cert esig dsig doc}.
+Arguments spec_src {key cert esig dsig doc}.
